@@ -11,6 +11,6 @@ CONSTANTS
   Kinds = {"waive", "stale", "equal", "future"}
   Pols = {"leader"}
   Mut = "after_write"
-INVARIANTS TypeOK C16_Dense C16_Once C16_StoredAtExpected C16_AckOffset C16_RejectNotStored C16_RejectJustified C16_WaivedAccepted C16_OneWinner C16_NoneNotSilent I_Resolved I_NonOccAll I_Order I_RejectWindow
+INVARIANTS TypeOK C16_Dense C16_Once C16_StoredAtExpected C16_AckOffset C16_RejectNotStored C16_RejectJustified C16_WaivedAccepted C16_OneWinner C16_NoneNotSilent C16_Answered I_Resolved I_NonOccAll I_Order I_RejectWindow
 VIEW MCView
 CHECK_DEADLOCK FALSE
